@@ -276,6 +276,7 @@ theorem repr_after_tag_history (s : HState) (rules : List Rule) (ops : List HOp)
       | optimize => cases hop
       | add r => cases hop
       | reload => cases hop
+      | loadFresh t => cases hop
 
 /-- two blockers in the state determined by the same rules and tags answer every query alike -/
 theorem repr_determines_answers (b b' : Blocker) (rules : List Rule) (T : List Str)
@@ -329,6 +330,7 @@ theorem tags_nodup_after (s : HState) (ops : List HOp) (hops : ∀ op ∈ ops, o
       | optimize => cases hop
       | add r => cases hop
       | reload => cases hop
+      | loadFresh t => cases hop
 
 /-- **history independence for tag switching** (unoptimised engine): however often and in whatever
     order tags were used, enabled and disabled — with queries of any kind in between, which do not
